@@ -135,9 +135,10 @@ func answeredOrError(proto string, cmd Command, body []byte) string {
 		}
 		return "nothing was sent in reply"
 	}
-	last := fs[len(fs)-1]
-	if last.Status != 0 && last.Status != 1 {
-		return "" // an error reply
+	for _, f := range fs {
+		if f.Status != 0 && f.Status != 1 {
+			return "" // an error reply
+		}
 	}
 	want := cmd.Opaque
 	if cmd.Kind == "get" {
@@ -149,10 +150,13 @@ func answeredOrError(proto string, cmd Command, body []byte) string {
 			return ""
 		}
 	}
-	if last.Opaque != want {
-		return fmt.Sprintf("the last frame received has opaque %d; the frame that ends the request (opaque %d) never came", last.Opaque, want)
+	// (answers of a multi-key get come L1 hits first: the frame that ends the request need not be last)
+	for _, f := range fs {
+		if f.Opaque == want {
+			return ""
+		}
 	}
-	return ""
+	return fmt.Sprintf("no frame with opaque %d, the one that ends the request, was received", want)
 }
 
 func init() {
